@@ -13,7 +13,7 @@ WORD_CHARS_SAFE = "abcxyzABC019_-./=:,+%^~*"
 PLAIN_WORDS = [
     "ls", "-l", "--opt=val", "1e5x", "a.b/c", "..", ".", "/usr/bin", "~", "~/x", "*.py", "x=1", "a,b", "a:b", "+x", "%d", "^a", "grep", "wakka", "ñandú", "日本", "-", "--", "2", "3.5", "0x1f", "a+b", "a*b", "@", "a@b", "|", "&", ";", "<", ">", "2>", ">>", "a|b", "a;b", "x<y", "echo", "hello_world", "file.txt", "1>2", "C:", "k=v,w", "-9", "**", "//", "->", "==", "<=", ":=", "a-b-c", "_", "__x__", "e", "E5", "1_000", "07", "a..b", "...",
 ]
-QUOTED = ['"a b"', "'q'", '"it\'s"', "'--x y'", '""', "r'\\d'", '"ü"', "'''t q'''", 'b"by"']
+QUOTED = ['"a b"', "'q'", '"it\'s"', "'--x y'", '""', "r'\\d'", '"ü"', "'''t q'''"]
 METHODS = {
     ("$(", ")"): "subproc_captured",
     ("$[", "]"): "subproc_uncaptured",
@@ -40,7 +40,7 @@ def gen_word(r: random.Random, depth: int = 0):
         return w, pystr(w), ["plain"]
     if k < 0.68:
         q = r.choice(QUOTED)
-        return q, q, ["quoted"]
+        return q, pystr(q), ["quoted"]  # quoted strings are passed verbatim (with their quotes)
     if k < 0.78:
         n = r.choice(ENV_NAMES)
         return "$" + n, f"__xonsh__.env[{pystr(n)}]", ["env"]
